@@ -3,6 +3,7 @@ import Cardutil.Model.Block1014
 import Cardutil.Model.Vbs
 import Cardutil.Model.Card
 import Cardutil.Model.PinBlock
+import Cardutil.Model.Des
 import Cardutil.WireIso
 import Cardutil.Model.Info
 import Cardutil.Model.Param
@@ -302,6 +303,36 @@ def process (line : String) : String :=
     match parseHex blk with
     | some b => renderOut toDotted (Pin.iso4FromBytes b)
     | none => "bad-op"
+  | ["tdes.ecb", dir, key, data] =>
+    match parseHex key, parseHex data with
+    | some key, some data => renderOut toHex (Des.tdesEcb (dir == "dec") key data)
+    | _, _ => "bad-op"
+  | ["pin.enc0", pin, pan, key] =>
+    -- format 0 under the Triple DES mix-in: clear block, encrypted block, decrypted block read back
+    match parseDotted pin, parseDotted pan, parseHex key with
+    | some pin, some pan, some key =>
+      renderOut id ((Pin.iso0ToBytes pin pan).bind (fun clear =>
+        (Des.tdesEcb false key clear).bind (fun enc =>
+          (Des.tdesEcb true key enc).bind (fun back =>
+            (Pin.iso0FromBytes back pan).bind (fun p => .ok s!"{toHex clear} {toHex enc} {toDotted p}")))))
+    | _, _, _ => "bad-op"
+  | ["pin.enc4tdes", pin, rnd, key] =>
+    match parseDotted pin, rnd.toNat?, parseHex key with
+    | some pin, some r, some key =>
+      renderOut id ((Pin.iso4ToBytes pin r).bind (fun clear =>
+        (Des.tdesEcb false key clear).bind (fun enc =>
+          (Des.tdesEcb true key enc).bind (fun back =>
+            (Pin.iso4FromBytes back).bind (fun p => .ok s!"{toHex clear} {toHex enc} {toDotted p}")))))
+    | _, _, _ => "bad-op"
+  | ["pvv.tdes", pin, idx, pan, key] =>
+    match parseDotted pin, parseDotted idx, parseDotted pan, parseHex key with
+    | some pin, some idx, some pan, some key =>
+      s!"tsp {toDotted (Pin.tsp pan idx pin)} " ++ renderOut toDotted (Pin.pvv (Des.tdesFn key) pin idx pan)
+    | _, _, _, _ => "bad-op"
+  | ["kcv.tdes", key, n] =>
+    match parseHex key, n.toNat? with
+    | some key, some n => s!"ok {toDotted (Pin.kcv (Des.tdesFn key) n)}"
+    | _, _ => "bad-op"
   | ["pvv", pin, idx, pan, ct] =>
     match parseDotted pin, parseDotted idx, parseDotted pan, parseHex ct with
     | some pin, some idx, some pan, some ct =>
